@@ -1258,7 +1258,8 @@ func (is *indexSearch) getTSIDsByTagFilterWithRegex(tf *tagFilter) (*uint64set.S
 	// eg, show series from mst where tagkey1 !~ /.*/
 	// eg, show tag values with key="tagkey1" where tagkey2 !~ /.*/
 	if tf.isAllMatch {
-		return nil, 0, nil
+		// nothing matches: an empty set, not nil (nil means "no constraint" to the callers)
+		return &uint64set.Set{}, 0, nil
 	}
 
 	tsids, err := is.getTSIDsByMeasurementName(tf.name)
